@@ -5,6 +5,13 @@
 //! the model answers exact rationals (`n/d`, integers only on the wire) or, for the `powf`-based ones, one
 //! expression per element which is evaluated here natively in f64 (bit-exact comparison), plus the statement-level
 //! oracle (count, first, last, constant difference/ratio within a stated tolerance) computed natively.
+//!
+//! Robustness streams: value-class element types `<t>v` for all twelve numeric types (`i8v … u64v isizev usizev f32v f64v`): the
+//! integer tags of the case line are mapped through a per-type palette of values that do not survive an f64 round trip or a
+//! multiplication by a 0/1 mask (|x| > 2^53, MIN/MAX, -0.0, ±inf, NaN, subnormals, u8 255, i8 -128) and every element of the
+//! result is compared BIT-WISE (masked / padding positions must be exactly `T::zero()`, i.e. +0.0); shapes beyond the small scope
+//! (`big_shapes()`, 4900-element matrices, sides to 130) and `zero_shapes()` for every structural constructor.  The constructors of
+//! this property are associated functions / methods of `Array<N>` only: there is no `impl … for Result<Array<N>, _>` to exercise.
 use arrharness::*;
 
 // ------------------------------------------------------------------------------------------------ element types
@@ -304,6 +311,133 @@ fn run<T: Elem>(op: &str, a: &[&str], expected: &str) -> Option<Verdict> {
     }
 }
 
+// ------------------------------------------------------------------------------------------------ value classes (`<type>v`)
+
+/// element types of the value-class stream: a tag of the case line stands for `pal(tag)`; tag 0 is `T::zero()` (what a mask writes)
+trait VElem: Numeric {
+    fn pal(t: i64) -> Self;
+    /// bit-level identity (every NaN alike; -0.0 differs from +0.0)
+    fn key(&self) -> u128;
+    fn shw(&self) -> String;
+}
+macro_rules! velem_signed { ($($t:ty),*) => { $( impl VElem for $t {
+    fn pal(t: i64) -> Self {
+        if t == 0 { return 0 }
+        let (q, r) = (((t - 1) / 6) as $t, (t - 1) % 6);
+        let wide = <$t>::BITS >= 64;
+        // beyond 2^53 (odd: not representable in f64) for the 64-bit types; near the ends of the range for every type
+        let big: $t = if wide { ((1i64 << 53) + 1) as $t } else { <$t>::MAX / 2 + 1 };
+        let v: $t = match r { 0 => big.wrapping_add(q.wrapping_mul(2)), 1 => (0 as $t).wrapping_sub(big).wrapping_sub(q.wrapping_mul(2)), 2 => <$t>::MAX.wrapping_sub(q), 3 => <$t>::MIN.wrapping_add(q),
+                  4 => big.wrapping_add(2).wrapping_add(q.wrapping_mul(2)), _ => if q % 2 == 0 { (q % 100).wrapping_add(1) } else { (0 as $t).wrapping_sub(q % 100).wrapping_sub(1) } };
+        // (the narrow types wrap round for large tags) a tag other than 0 never stands for zero
+        if v == 0 { <$t>::MIN } else { v }
+    }
+    fn key(&self) -> u128 { (*self as i128) as u128 }
+    fn shw(&self) -> String { format!("{}", self) }
+} )* } }
+macro_rules! velem_unsigned { ($($t:ty),*) => { $( impl VElem for $t {
+    fn pal(t: i64) -> Self {
+        if t == 0 { return 0 }
+        let (q, r) = (((t - 1) / 6) as $t, (t - 1) % 6);
+        let wide = <$t>::BITS >= 64;
+        let big: $t = if wide { ((1u64 << 53) + 1) as $t } else { <$t>::MAX / 2 + 1 };
+        let v: $t = match r { 0 => big.wrapping_add(q.wrapping_mul(2)), 1 => <$t>::MAX.wrapping_sub(q), 2 => (<$t>::MAX / 2).wrapping_add(2).wrapping_add(q), 3 => <$t>::MAX.wrapping_sub(1).wrapping_sub(q.wrapping_mul(2)),
+                  4 => big.wrapping_add(2).wrapping_add(q.wrapping_mul(2)), _ => (q % 100).wrapping_add(1) };
+        if v == 0 { <$t>::MAX } else { v }
+    }
+    fn key(&self) -> u128 { *self as u128 }
+    fn shw(&self) -> String { format!("{}", self) }
+} )* } }
+velem_signed!(i8, i16, i32, i64, isize);
+velem_unsigned!(u8, u16, u32, u64, usize);
+impl VElem for f64 {
+    fn pal(t: i64) -> Self {
+        if t == 0 { return 0.0 }
+        let (q, r) = (((t - 1) / 10) as f64, (t - 1) % 10);
+        match r { 0 => -0.0, 1 => f64::INFINITY, 2 => f64::NEG_INFINITY, 3 => f64::NAN, 4 => f64::from_bits(1 + q as u64), 5 => f64::MAX - q * 1e292,
+                  6 => -(q + 1.5), 7 => 9007199254740994.0 + 2. * q, 8 => f64::MIN_POSITIVE * (q + 1.), _ => 0.1 + q }
+    }
+    fn key(&self) -> u128 { if self.is_nan() { u128::MAX } else { self.to_bits() as u128 } }
+    fn shw(&self) -> String { format!("{:?}", self) }
+}
+impl VElem for f32 {
+    fn pal(t: i64) -> Self {
+        if t == 0 { return 0.0 }
+        let (q, r) = (((t - 1) / 10) as f32, (t - 1) % 10);
+        match r { 0 => -0.0, 1 => f32::INFINITY, 2 => f32::NEG_INFINITY, 3 => f32::NAN, 4 => f32::from_bits(1 + q as u32), 5 => f32::MAX - q * 1e31,
+                  6 => -(q + 1.5), 7 => 16777216.0 + 2. * q, 8 => f32::MIN_POSITIVE * (q + 1.), _ => 0.1 + q }
+    }
+    fn key(&self) -> u128 { if self.is_nan() { u128::MAX } else { self.to_bits() as u128 } }
+    fn shw(&self) -> String { format!("{:?}", self) }
+}
+const VTYPES: [&str; 12] = ["i8v", "i16v", "i32v", "i64v", "isizev", "u8v", "u16v", "u32v", "u64v", "usizev", "f32v", "f64v"];
+
+fn arr_v<T: VElem>(s: &str) -> Array<T> {
+    let (shape, elems) = parse_arr_raw(s);
+    Array::new(elems.into_iter().map(T::pal).collect(), shape).expect("harness: malformed array literal")
+}
+fn show_v<T: VElem>(a: &Array<T>) -> String {
+    let e = a.get_elements().unwrap();
+    format!("{}:{}", show_list(&a.get_shape().unwrap()), if e.is_empty() { "-".to_string() } else { e.iter().take(40).map(|x| x.shw()).collect::<Vec<_>>().join(",") })
+}
+/// compare a real array bit-wise with the model's integer answer: `tags` — a model value `m` stands for `pal(m)`; otherwise 0 / 1 stand
+/// for `T::zero()` / `T::one()`
+fn cmp_v<T: VElem>(r: &Result<Array<T>, ArrayError>, expected: &str, tags: bool) -> Verdict {
+    let a = match r { Ok(a) => a, Err(e) => return compare_default(format!("err {}", err_name(e)), expected) };
+    let obs = format!("ok {}", show_v(a));
+    let Some(body) = expected.strip_prefix("ok ") else { return Verdict::Mismatch { observed: obs, detail: format!("model says `{}`", truncate(expected, 200)) } };
+    let Some((sh, el)) = body.split_once(':') else { return Verdict::Mismatch { observed: obs, detail: "harness cannot read the model's answer".into() } };
+    let mism = |d: String| Verdict::Mismatch { observed: obs.clone(), detail: d };
+    if !consistent(a) { return mism("shape/count inconsistent (C01 monitor)".into()) }
+    if a.get_shape().unwrap() != parse_usize_list(sh) { return mism(format!("shape: the model has {sh}")) }
+    let want = parse_i64_list(el);
+    let e = a.get_elements().unwrap();
+    if e.len() != want.len() { return mism(format!("{} elements, the model has {}", e.len(), want.len())) }
+    for (p, (x, &m)) in e.iter().zip(&want).enumerate() {
+        let w: T = if tags { T::pal(m) } else if m == 0 { T::zero() } else if m == 1 { T::one() } else { return mism(format!("harness: model value {m} where only 0/1 can occur")) };
+        if x.key() != w.key() { return mism(format!("flat position {p}: {} instead of {} (bit-wise; model value {m})", x.shw(), w.shw())) }
+    }
+    Verdict::Match(expected.to_string())
+}
+
+fn run_v<T: VElem>(op: &str, a: &[&str], expected: &str) -> Option<Verdict> {
+    let out = |r: Result<Result<Array<T>, ArrayError>, ()>, tags: bool| -> Option<Verdict> { match r { Ok(r) => Some(cmp_v(&r, expected, tags)), Err(()) => Some(compare_default("panic".into(), expected)) } };
+    match op {
+        "full" => { let s = parse_usize_list(a[0]); let v = T::pal(a[1].parse().ok()?); out(try_run(|| Array::<T>::full(s, v)), true) }
+        "m_full" => { let s = parse_usize_list(a[0]); let v = T::pal(a[1].parse().ok()?); out(try_run(|| array_full!(T, s, v)), true) }
+        "full_like" => { let o = arr_v::<T>(a[0]); let v = T::pal(a[1].parse().ok()?); out(try_run(|| Array::<T>::full_like(&o, v)), true) }
+        "zeros" => { let s = parse_usize_list(a[0]); out(try_run(|| Array::<T>::zeros(s)), false) }
+        "ones" => { let s = parse_usize_list(a[0]); out(try_run(|| Array::<T>::ones(s)), false) }
+        "zeros_like" => { let o = arr_v::<T>(a[0]); out(try_run(|| Array::<T>::zeros_like(&o)), false) }
+        "ones_like" => { let o = arr_v::<T>(a[0]); out(try_run(|| Array::<T>::ones_like(&o)), false) }
+        "eye" => { let n: usize = a[0].parse().ok()?; let (m, k) = (opt_usize(a[1])?, opt_usize(a[2])?); out(try_run(|| Array::<T>::eye(n, m, k)), false) }
+        "identity" => { let n: usize = a[0].parse().ok()?; out(try_run(|| Array::<T>::identity(n)), false) }
+        "tri" => { let n: usize = a[0].parse().ok()?; let (m, k) = (opt_usize(a[1])?, opt_isize(a[2])?); out(try_run(|| Array::<T>::tri(n, m, k)), false) }
+        "tril" => { let o = arr_v::<T>(a[0]); let k = opt_isize(a[1])?; out(try_run(|| o.tril(k)), true) }
+        "triu" => { let o = arr_v::<T>(a[0]); let k = opt_isize(a[1])?; out(try_run(|| o.triu(k)), true) }
+        "tril_plus_triu" => {
+            // reassembly without arithmetic: at every position one of the two parts holds the input's bits and the other one exactly zero
+            let o = arr_v::<T>(a[0]); let k: isize = a[1].parse().ok()?;
+            let r = try_run(|| (o.tril(Some(k)), o.triu(Some(k.saturating_add(1)))));
+            let (l, u) = match r { Err(()) => return Some(compare_default("panic".into(), expected)), Ok((Err(e), _)) | Ok((_, Err(e))) => return Some(compare_default(format!("err {}", err_name(&e)), expected)), Ok((Ok(l), Ok(u))) => (l, u) };
+            if l.get_shape().unwrap() != u.get_shape().unwrap() || l.get_shape().unwrap() != o.get_shape().unwrap() { return Some(Verdict::Mismatch { observed: format!("ok {} / {}", show_v(&l), show_v(&u)), detail: "the two parts and the input differ in shape".into() }) }
+            let (x, le, ue) = (o.get_elements().unwrap(), l.get_elements().unwrap(), u.get_elements().unwrap());
+            let z = T::zero().key();
+            for p in 0..x.len() {
+                let lower = le[p].key() == x[p].key() && ue[p].key() == z;
+                let upper = ue[p].key() == x[p].key() && le[p].key() == z;
+                if lower == upper { return Some(Verdict::Mismatch { observed: format!("ok lower {} upper {}", le[p].shw(), ue[p].shw()), detail: format!("flat position {p}: input {} is not held (bit-wise) by exactly one of tril(k), triu(k+1) with exact zero in the other", x[p].shw()) }) }
+            }
+            // the parts reassemble the input: answer with the input itself, which is what the model's sum is
+            Some(cmp_v(&Ok(o), expected, true))
+        }
+        "diag" => { let o = arr_v::<T>(a[0]); let k = opt_isize(a[1])?; out(try_run(|| o.diag(k)), true) }
+        "diagflat" => { let o = arr_v::<T>(a[0]); let k = opt_isize(a[1])?; out(try_run(|| o.diagflat(k)), true) }
+        "diag_diag" => { let o = arr_v::<T>(a[0]); let k = opt_isize(a[1])?; out(try_run(|| o.diag(k).and_then(|m| m.diag(k))), true) }
+        _ => None,
+    }
+}
+
 fn exec(op: &str, args: &[&str], expected: &str) -> Option<Verdict> {
     let (ty, rest) = args.split_first()?;
     match *ty {
@@ -311,6 +445,9 @@ fn exec(op: &str, args: &[&str], expected: &str) -> Option<Verdict> {
         "i64" => run::<i64>(op, rest, expected),
         "u8" => run::<u8>(op, rest, expected),
         "f64" => run::<f64>(op, rest, expected),
+        "i8v" => run_v::<i8>(op, rest, expected), "i16v" => run_v::<i16>(op, rest, expected), "i32v" => run_v::<i32>(op, rest, expected), "i64v" => run_v::<i64>(op, rest, expected),
+        "isizev" => run_v::<isize>(op, rest, expected), "u8v" => run_v::<u8>(op, rest, expected), "u16v" => run_v::<u16>(op, rest, expected), "u32v" => run_v::<u32>(op, rest, expected),
+        "u64v" => run_v::<u64>(op, rest, expected), "usizev" => run_v::<usize>(op, rest, expected), "f32v" => run_v::<f32>(op, rest, expected), "f64v" => run_v::<f64>(op, rest, expected),
         _ => None,
     }
 }
@@ -318,6 +455,136 @@ fn exec(op: &str, args: &[&str], expected: &str) -> Option<Verdict> {
 // ------------------------------------------------------------------------------------------------ generator
 
 fn opt_s<T: std::fmt::Display>(o: Option<T>) -> String { o.map_or("none".into(), |x| x.to_string()) }
+
+// ------------------------------------------------------------------------------------------------ robustness streams
+
+fn gen_streams(out: &mut dyn FnMut(String), rng: &mut Rng, thorough: bool) {
+    let opt_k = |k: Option<isize>| k.map_or("none".to_string(), |x| x.to_string());
+    // shapes beyond the exhaustive scope: every `big_shapes()` entry plus wide / tall / long-stack matrices
+    let mut big: Vec<Vec<usize>> = big_shapes();
+    big.extend([vec![130, 17], vec![17, 130], vec![300, 2, 2], vec![2, 2, 33, 9], vec![64, 64], vec![1, 257], vec![257, 1]]);
+    let big_ks: [Option<isize>; 10] = [None, Some(-40), Some(-20), Some(-9), Some(-1), Some(0), Some(1), Some(8), Some(16), Some(69)];
+    let mut zs = zero_shapes();
+    zs.extend([vec![0, 2, 2], vec![2, 2, 0], vec![3, 0, 0], vec![2, 0, 3, 4], vec![0, 7], vec![17, 0]]);
+
+    // ---- A. value classes, every numeric element type, bit-wise
+    for ty in VTYPES {
+        let hi = if thorough { 6usize } else { 4 };
+        let kk: isize = if thorough { 7 } else { 5 };
+        let ks: Vec<Option<isize>> = std::iter::once(None).chain((-kk..=kk).map(Some)).collect();
+        for n in 0..=hi { for m in 0..=hi {
+            for off in if thorough { vec![1i64, 4, 8] } else { vec![1i64, 4] } {
+                // the offset shifts which palette value meets which coordinate
+                if off != 1 && (n < 2 || m < 2) { continue }
+                let a = tag_off(&[n, m], off);
+                for k in &ks { out(format!("tril {ty} {a} {}", opt_k(*k))); out(format!("triu {ty} {a} {}", opt_k(*k))); }
+                for k in -kk..kk { out(format!("tril_plus_triu {ty} {a} {k}")); }
+                for k in &ks { out(format!("diag {ty} {a} {}", opt_k(*k))); }
+            }
+        } }
+        for sh in [vec![2usize, 2, 3], vec![2, 3, 2], vec![3, 1, 2, 2], vec![2, 0, 2], vec![0, 2, 2], vec![2, 1, 1, 3, 3]] {
+            let a = tag_off(&sh, 1);
+            for k in -3isize..=3 { out(format!("tril {ty} {a} {k}")); out(format!("triu {ty} {a} {k}")); out(format!("tril_plus_triu {ty} {a} {k}")); }
+        }
+        for a in ["-:5".to_string(), tag_off(&[3], 1), tag_off(&[0], 1)] { out(format!("tril {ty} {a} none")); out(format!("triu {ty} {a} 1")); out(format!("tril_plus_triu {ty} {a} 0")); }
+        for n in 0..=(hi + 7) {
+            let v = tag_off(&[n], 1);
+            for k in -3isize..=3 { out(format!("diag {ty} {v} {k}")); out(format!("diag_diag {ty} {v} {k}")); out(format!("diagflat {ty} {v} {k}")); }
+            out(format!("diag {ty} {v} none")); out(format!("diagflat {ty} {v} none"));
+        }
+        for sh in [vec![2usize, 2], vec![2, 3], vec![2, 1, 2], vec![3, 4], vec![2, 2, 2]] { for k in -1isize..=1 { out(format!("diagflat {ty} {} {k}", tag_off(&sh, 1))); } }
+        out(format!("diag {ty} {} none", tag_off(&[2, 2, 2], 1))); out(format!("diag {ty} -:5 none"));
+        for z in &zs {
+            let a = tag_off(z, 1);
+            for op in ["tril", "triu", "diag", "diagflat"] { out(format!("{op} {ty} {a} none")); out(format!("{op} {ty} {a} 1")); out(format!("{op} {ty} {a} -2")); }
+            out(format!("tril_plus_triu {ty} {a} 0"));
+            out(format!("full_like {ty} {a} 3")); out(format!("zeros_like {ty} {a}")); out(format!("ones_like {ty} {a}"));
+            out(format!("full {ty} {} 2", show_list(z))); out(format!("zeros {ty} {}", show_list(z))); out(format!("ones {ty} {}", show_list(z)));
+        }
+        // fills: every palette value as the fill value
+        for sh in [vec![], vec![1usize], vec![3], vec![2, 3], vec![2, 2, 2], vec![7, 9], vec![300]] {
+            let shs = show_list(&sh);
+            for v in 0..=(if thorough { 40 } else { 13 }) { out(format!("full {ty} {shs} {v}")); out(format!("m_full {ty} {shs} {v}")); if !sh.is_empty() { out(format!("full_like {ty} {} {v}", tag_off(&sh, 2))); } }
+            out(format!("zeros {ty} {shs}")); out(format!("ones {ty} {shs}"));
+            if !sh.is_empty() { out(format!("zeros_like {ty} {}", tag_off(&sh, 1))); out(format!("ones_like {ty} {}", tag_off(&sh, 1))); }
+        }
+        for n in 0..=4usize { for m in [None, Some(0usize), Some(2), Some(5)] {
+            for k in [None, Some(0usize), Some(1), Some(4)] { out(format!("eye {ty} {n} {} {}", opt_s(m), opt_s(k))); }
+            for k in [None, Some(0isize), Some(1), Some(-1), Some(-4), Some(5)] { out(format!("tri {ty} {n} {} {}", opt_s(m), opt_s(k))); }
+        } out(format!("identity {ty} {n}")); }
+        out(format!("identity {ty} 17")); out(format!("eye {ty} 17 9 3")); out(format!("tri {ty} 9 17 -2"));
+        for k in [isize::MAX, isize::MIN, isize::MIN + 1] {
+            let a = tag_off(&[2, 3], 1);
+            out(format!("tril {ty} {a} {k}")); out(format!("triu {ty} {a} {k}")); if k < isize::MAX { out(format!("tril_plus_triu {ty} {a} {k}")); }
+            out(format!("diag {ty} {a} {k}")); out(format!("diag {ty} {} {k}", tag_off(&[2], 1)));
+        }
+        // sizes, on the types where a value class bites hardest (quick) / on every type (thorough)
+        if thorough || ["i64v", "u64v", "f64v", "f32v", "u8v", "i8v", "usizev"].contains(&ty) {
+            for sh in &big {
+                let a = tag_off(sh, 1);
+                if sh.len() >= 2 {
+                    for k in &big_ks { out(format!("tril {ty} {a} {}", opt_k(*k))); out(format!("triu {ty} {a} {}", opt_k(*k))); }
+                    for k in [-20isize, -1, 0, 7, 16] { out(format!("tril_plus_triu {ty} {a} {k}")); }
+                    if sh.len() == 2 { for k in [None, Some(5isize), Some(-5), Some(16), Some(-39), Some(200)] { out(format!("diag {ty} {a} {}", opt_k(k))); } }
+                } else {
+                    out(format!("tril {ty} {a} 0"));
+                    if sh[0] <= 100 { for k in [0isize, 3, -30] { out(format!("diag {ty} {a} {k}")); out(format!("diag_diag {ty} {a} {k}")); } }
+                }
+                if sh.iter().product::<usize>() <= 80 { out(format!("diagflat {ty} {a} -2")); }
+                out(format!("full_like {ty} {a} 4")); out(format!("zeros_like {ty} {a}")); out(format!("ones_like {ty} {a}")); out(format!("full {ty} {} 7", show_list(sh)));
+            }
+            out(format!("identity {ty} 70")); out(format!("eye {ty} 70 70 3")); out(format!("eye {ty} 17 130 5")); out(format!("tri {ty} 130 17 4")); out(format!("tri {ty} 70 70 -3"));
+        }
+    }
+
+    // ---- B. the four plain element types beyond the small scope
+    for ty in TYPES {
+        let fits = |sh: &Vec<usize>| ty != "u8" || sh.iter().product::<usize>() <= 250;   // plain u8 holds the tags themselves
+        for sh in &big {
+            let shs = show_list(sh);
+            out(format!("zeros {ty} {shs}")); out(format!("ones {ty} {shs}")); out(format!("full {ty} {shs} 9")); out(format!("m_full {ty} {shs} 5")); out(format!("rand {ty} {shs}"));
+            if (1..=3).contains(&sh.len()) { out(format!("m_zeros {ty} {shs}")); out(format!("m_ones {ty} {shs}")); out(format!("m_rand {ty} {shs}")); }
+            out(format!("zeros_like {ty} {}", tag(sh))); out(format!("ones_like {ty} {}", tag(sh))); out(format!("full_like {ty} {} 6", tag(sh)));
+            if !fits(sh) { continue }
+            let a = tag_off(sh, 1);
+            if sh.len() >= 2 {
+                for k in &big_ks { out(format!("tril {ty} {a} {}", opt_k(*k))); out(format!("triu {ty} {a} {}", opt_k(*k))); }
+                for k in [-20isize, -1, 0, 7, 16] { out(format!("tril_plus_triu {ty} {a} {k}")); }
+                if sh.len() == 2 { for k in [None, Some(5isize), Some(-5), Some(16), Some(-39), Some(200)] { out(format!("diag {ty} {a} {}", opt_k(k))); } }
+            } else {
+                out(format!("tril {ty} {a} 0")); out(format!("triu {ty} {a} none"));
+                if sh[0] <= 100 { for k in [0isize, 3, -30] { out(format!("diag {ty} {a} {k}")); out(format!("diag_diag {ty} {a} {k}")); out(format!("diagflat {ty} {a} {k}")); } }
+            }
+            if sh.iter().product::<usize>() <= 80 { out(format!("diagflat {ty} {a} 2")); }
+        }
+        for z in &zs {
+            let (a, shs) = (tag_off(z, 1), show_list(z));
+            for op in ["tril", "triu", "diag", "diagflat", "diag_diag"] { for k in ["none", "1", "-2"] { out(format!("{op} {ty} {a} {k}")); } }
+            out(format!("tril_plus_triu {ty} {a} 0")); out(format!("vander {ty} {a} none none")); out(format!("vander {ty} {a} 2 true"));
+            out(format!("zeros {ty} {shs}")); out(format!("ones {ty} {shs}")); out(format!("full {ty} {shs} 1")); out(format!("m_full {ty} {shs} 1")); out(format!("rand {ty} {shs}"));
+            out(format!("zeros_like {ty} {a}")); out(format!("ones_like {ty} {a}")); out(format!("full_like {ty} {a} 2"));
+            if (1..=3).contains(&z.len()) { out(format!("m_zeros {ty} {shs}")); out(format!("m_ones {ty} {shs}")); out(format!("m_rand {ty} {shs}")); }
+        }
+        for (n, m, k) in [(70usize, Some(70usize), 3i64), (17, Some(130), 5), (130, Some(17), 0), (70, None, 69), (70, Some(70), 70), (9, Some(300), 290), (64, Some(65), 1)] {
+            out(format!("eye {ty} {n} {} {k}", opt_s(m))); out(format!("m_eye {ty} {n} {} {k}", opt_s(m.or(Some(n)))));
+            for kk in [k as isize, -(k as isize), 0] { out(format!("tri {ty} {n} {} {kk}", opt_s(m))); }
+        }
+        for n in [17usize, 64, 70, 130] { out(format!("identity {ty} {n}")); out(format!("m_identity {ty} {n}")); }
+        // vander on long vectors (values 0/1/2 keep the powers inside u8), long sequences
+        for (len, cols) in [(17usize, 5usize), (70, 3), (300, 2), (1030, 2)] {
+            let v: Vec<i64> = (0..len).map(|i| [1i64, 2, 0, 1, 2, 2][i % 6]).collect();
+            for inc in ["none", "true", "false"] { out(format!("vander {ty} {}:{} {cols} {inc}", len, show_list(&v))); }
+        }
+        let (s0, s1) = if ty == "u8" { ("0", "200") } else { ("-3", "1000") };
+        for n in [61usize, 64, 100, 257, 1030, 4100] { for e in ["none", "true", "false"] {
+            out(format!("linspace {ty} {s0} {s1} {n} {e}")); out(format!("linspace {ty} 0 1 {n} {e}"));
+            if n <= 1030 { out(format!("geomspace {ty} 1 200 {n} {e}")); out(format!("logspace {ty} 0 2 {n} {e} none")); out(format!("logspace {ty} 0 1 {n} {e} 2")); }
+        } }
+        if ty != "u8" { for (s, t, st) in [(0i64, 300i64, "1"), (-50, 1030, "1"), (0, 4100, "1"), (0, 4100, "3"), (5, 20000, "7"), (0, 70, "none")] { out(format!("arange {ty} {s} {t} {st}")); out(format!("m_arange {ty} {s} {t} {}", if st == "none" { "none" } else { st })); } }
+        else { for (s, t, st) in [(0i64, 250i64, "1"), (3, 255, "2"), (0, 255, "none")] { out(format!("arange {ty} {s} {t} {st}")); } }
+    }
+    let _ = rng;
+}
 
 fn gen(tier: &str, seed: u64, out: &mut dyn FnMut(String)) {
     let thorough = tier == "thorough";
@@ -329,7 +596,9 @@ fn gen(tier: &str, seed: u64, out: &mut dyn FnMut(String)) {
     let opt_sides: Vec<Option<usize>> = std::iter::once(None).chain(sides.iter().copied().map(Some)).collect();
 
     // ---- corpus of past failures (found by this check on the pinned tree)
-    for l in ["arange u8 0 5 0", "linspace u8 0 1 0 none", "geomspace u8 2 2 0 none", "logspace f64 0 3 0 true 2", "tril i32 i3+1 none", "triu i32 i3+1 1", "tril i32 i0,3+1 none", "tril i32 i3,0+1 0", "triu f64 i2,0,2+1 -1", "tril i32 -:5 none"] { out(l.to_string()); }
+    for l in ["arange u8 0 5 0", "linspace u8 0 1 0 none", "geomspace u8 2 2 0 none", "logspace f64 0 3 0 true 2", "tril i32 i3+1 none", "triu i32 i3+1 1", "tril i32 i0,3+1 none", "tril i32 i3,0+1 0", "triu f64 i2,0,2+1 -1", "tril i32 -:5 none",
+              // round-2 seeded change: masks through a multiplication (f64 round trip): kept i64 beyond 2^53, removed inf / NaN / -0.0
+              "tril i64v i2,2+1 none", "triu f64v i2,2+1 none", "tril_plus_triu u64v i3,3+1 0", "tril f32v i2,3+2 0"] { out(l.to_string()); }
 
     for ty in TYPES {
         let signed = ty != "u8";
@@ -436,8 +705,10 @@ fn gen(tier: &str, seed: u64, out: &mut dyn FnMut(String)) {
         for (s, t) in &log_pairs { out(format!("logspace {ty} {s} {t} none none none")); }
     }
 
-    // ---- seeded random stream beyond the exhaustive scope
+    // ---- robustness streams: value classes on every numeric type (bit-wise), sizes beyond the small scope, zero-length axes
     let mut rng = Rng::new(seed ^ 0xC16);
+    gen_streams(out, &mut rng, thorough);
+    // ---- seeded random stream beyond the exhaustive scope
     let n_rand = if thorough { 6000 } else { 1200 };
     for _ in 0..n_rand {
         let ty = *rng.pick(&TYPES);
@@ -494,5 +765,5 @@ fn nontrivial(op: &str, args: &[&str]) -> bool {
 
 fn main() {
     harness_main(Spec { prop: "C16", gen, exec, nontrivial, hang_secs: 30,
-        rule: "exhaustive per element type (i32 i64 u8 f64): fills over every shape rank<=3 sides 0..3 and every matrix 0..6x0..6 (thorough 0..8); eye/tri/tril/triu/diag over every matrix side pair x every offset -7..7 (+default; eye 0..7 since k is usize); stacks of matrices rank 3-4, ranks 0/1 (refused); vander lengths 0..6 x columns 0..6 x both orders; arange starts x stops x whole steps 1,2,3,5,12 (+ negative and fractional steps on f64); linspace/geomspace/logspace counts 0..60 (thorough 0..80) x endpoint none/true/false x 4-10 (start,stop) pairs x bases; rand over every shape rank<=3 sides 0..3 + all matrices (>200 shapes); array_* macros in every arity; then a seeded random stream (sides to 13, offsets to +-15, rank to 5, counts to 200). distinct = distinct case lines; non-trivial = result/operand with >= 2 elements (matrix with both sides >= 2, sequence with >= 2 points)" });
+        rule: "exhaustive per element type (i32 i64 u8 f64): fills over every shape rank<=3 sides 0..3 and every matrix 0..6x0..6 (thorough 0..8); eye/tri/tril/triu/diag over every matrix side pair x every offset -7..7 (+default; eye 0..7 since k is usize); stacks of matrices rank 3-4, ranks 0/1 (refused); vander lengths 0..6 x columns 0..6 x both orders; arange starts x stops x whole steps 1,2,3,5,12 (+ negative and fractional steps on f64); linspace/geomspace/logspace counts 0..60 (thorough 0..80) x endpoint none/true/false x 4-10 (start,stop) pairs x bases; rand over every shape rank<=3 sides 0..3 + all matrices (>200 shapes); array_* macros in every arity; robustness streams: value-class types i8v..u64v isizev usizev f32v f64v (tags mapped to |x|>2^53, MIN/MAX, u8 255, -0.0, +-inf, NaN, subnormals; bit-wise comparison, masked positions exactly +0) for tril/triu/tril+triu/diag/diagflat/diag.diag/full/full_like/zeros/ones/*_like/eye/identity/tri over matrices 0..4x0..4 (thorough 0..6) x offsets, stacks, ranks 0/1, zero_shapes, extreme offsets; big_shapes (to 70x70, 130x17, 300x2x2) and zero_shapes for every structural constructor on the plain and the value-class types, eye/tri/identity to side 130, vander on 1030 values, linspace to 4100 points, geomspace/logspace to 1030, arange to 4100 terms; then a seeded random stream (sides to 13, offsets to +-15, rank to 5, counts to 200). distinct = distinct case lines; non-trivial = result/operand with >= 2 elements (matrix with both sides >= 2, sequence with >= 2 points)" });
 }
